@@ -360,7 +360,7 @@ fn programs(quick: bool) -> Vec<Prog> {
 }
 
 /// (e) two-instruction sequences of the C01 alphabet under every size / a few limits.
-fn seq_programs(quick: bool) -> Vec<Prog> {
+fn seq_programs(quick: bool, triples: bool) -> Vec<Prog> {
     let mut v = vec![];
     let alpha: Vec<Vec<u8>> = vec![
         vec![0x10], vec![0x15], vec![0x18], vec![0x1C], vec![0x28, 0x30], vec![0x17], vec![0x2C], vec![0xF1, 0x40], vec![0xFB, 0xD1, 0x40],
@@ -379,6 +379,28 @@ fn seq_programs(quick: bool) -> Vec<Prog> {
                         p.case.cpu.r[1] = r1;
                         sw::place(&mut p.case.ram, 0x30, &[0x46, 0x17]);
                         v.push(p);
+                    }
+                }
+            }
+        }
+    }
+    if triples {
+        // three-instruction sequences, two limits
+        for &s in &SIZES {
+            for lim in [0x08u8, 0xFF] {
+                for a in &alpha {
+                    for b in &alpha {
+                        for c in &alpha {
+                            for (sp, r1) in [(0xE0u8, 0xD0u8), (0xD0, 0xA1), (0xAF, 0xF0)] {
+                                let mut code = a.clone();
+                                code.extend(b);
+                                code.extend(c);
+                                let mut p = mk(format!("seq {:02x?} {:02x?} {:02x?}", a, b, c), s, Programsize::Size(lim), &code, 0, sp, 200);
+                                p.case.cpu.r[1] = r1;
+                                sw::place(&mut p.case.ram, 0x30, &[0x46, 0x17]);
+                                v.push(p);
+                            }
+                        }
                     }
                 }
             }
@@ -660,8 +682,10 @@ pub fn run() {
         ctx.finish();
     }
     let quick = ctx.quick();
-    let mut progs = programs(quick);
-    progs.extend(seq_programs(quick));
+    // the quick tier runs the full single- and two-instruction families (seconds); the thorough tier
+    // adds all three-instruction sequences and more halted states per class
+    let mut progs = programs(false);
+    progs.extend(seq_programs(false, !quick));
     let n_progs = progs.len();
     let outs = mc::par_ranges(progs.len(), 256, |r| {
         let mut out = Out::default();
@@ -701,7 +725,7 @@ pub fn run() {
     // absorption BFS from every distinct halted state (bounded number per tier, spread over the set)
     // class-complete choice: every class (halt kind, micro address, IR, stack size, rule intact or
     // broken at the halt, key interrupt armed in MICR, IE set) contributes up to `per_class` states, in deterministic order
-    let per_class = if quick { 2 } else { 12 };
+    let per_class = if quick { 12 } else { 40 };
     let mut by_class: BTreeMap<(u8, u16, u8, u8, bool, bool, bool), Vec<&(Machine, Prog)>> = BTreeMap::new();
     for hp in &all.halted {
         let m = &hp.0;
@@ -750,7 +774,7 @@ pub fn run() {
     ctx.set("distinct_nontrivial", all.halted.len());
     ctx.set("rule", "every generated run is clocked edge by edge with the REF-SUP monitor checking the state flip of every edge; distinct_nontrivial = distinct halted machine states reached (full-state digest); each chosen halted state is the root of a depth-3 BFS over 10 further stimuli");
     ctx.set("exhaustive", true);
-    ctx.set("bounds", format!("{} runs: LDSP to all 256 values x 5 walks x 5 sizes; recursion/pop loops x 7 start SPs x 5 sizes; MOV PC / JR to all 256 targets x {} limits; all 256 first bytes and second bytes after 4 prefixes; 23^2 two-instruction sequences x 3 register sets x 5 sizes x limits; absorption BFS depth 3 from {} halted states chosen class-complete from {} classes ({} distinct halted states kept)", n_progs, if quick { 58 } else { 256 }, chosen.len(), n_classes, all.halted.len()));
+    ctx.set("bounds", format!("{} runs: LDSP to all 256 values x 5 walks x 5 sizes; recursion/pop loops x 7 start SPs x 5 sizes; MOV PC / JR to all 256 targets x {} limits; all 256 first bytes and second bytes after 4 prefixes; 23^2 two-instruction sequences x 3 register sets x 5 sizes x 5 limits{}; absorption BFS depth 3 from {} halted states chosen class-complete from {} classes ({} distinct halted states kept)", n_progs, 256, if quick { "" } else { " + 23^3 three-instruction sequences x 3 register sets x 5 sizes x 2 limits" }, chosen.len(), n_classes, all.halted.len()));
     ctx.set("monitored_edges", all.st.edges);
     ctx.set("error_stops_by_rule", all.st.flips_error_rule);
     ctx.set("error_stops_by_opcode_00", all.st.flips_error_00);
